@@ -128,4 +128,39 @@ example : rrSeq 0 3 7 = [0, 1, 2, 0, 1, 2, 0] := by decide
 example : (rrSeq 5 3 6).count 0 = 2 ∧ (rrSeq 5 3 6).count 1 = 2 ∧ (rrSeq 5 3 6).count 2 = 2 := by decide
 example : (runFetch 10 [7, 8, 7, 9]).1 = [(7, 10), (8, 11), (7, 12), (9, 13)] := by decide
 
+/-! ### several balancers in one process -/
+
+/-- whatever the interleaving of requests over any number of balancers: what balancer `b` selects is exactly its own
+    round-robin sequence, as if it were alone -/
+theorem balancers_independent (sizes ctr : Nat → Nat) (sched : List Nat) (b : Nat) :
+    ((multiRr sizes ctr sched).filter (fun p => p.1 == b)).map (·.2) =
+      rrSeq (ctr b) (sizes b) (sched.count b) := by
+  induction sched generalizing ctr with
+  | nil => simp [multiRr, rrSeq]
+  | cons x rest ih =>
+    simp only [multiRr]
+    by_cases hx : x = b
+    · subst hx
+      simp only [List.filter_cons, beq_self_eq_true, ↓reduceIte, List.map_cons, List.count_cons_self, rrSeq]
+      rw [ih]
+      simp
+    · have hb : (x == b) = false := by simpa using hx
+      simp only [List.filter_cons, hb, Bool.false_eq_true, ↓reduceIte]
+      rw [ih]
+      have hne : b ≠ x := fun e => hx e.symm
+      simp [hne, List.count_cons, hb]
+
+/-- hence every balancer is fair by itself under every interleaving (no wrap-around within the window) -/
+theorem balancers_fair (sizes ctr : Nat → Nat) (sched : List Nat) (b m k : Nat) (hm : m < sizes b)
+    (hk : sched.count b = k * sizes b) (hw : ctr b + k * sizes b ≤ W) :
+    (((multiRr sizes ctr sched).filter (fun p => p.1 == b)).map (·.2)).count m = k := by
+  rw [balancers_independent, hk]
+  exact rr_fair (sizes b) (ctr b) m k hm hw
+
+/-- one cursor shared by two balancers used alternately (seeded change C17c): balancer 0 always picks the same member -/
+theorem shared_cursor_starves : sharedRr (fun _ => 2) 0 [0, 1, 0, 1, 0, 1] = [(0, 0), (1, 1), (0, 0), (1, 1), (0, 0), (1, 1)] := by
+  decide
+
+example : multiRr (fun _ => 2) (fun _ => 0) [0, 1, 0, 1, 0, 1] = [(0, 0), (1, 0), (0, 1), (1, 1), (0, 0), (1, 0)] := by decide
+
 end Redproxy.Props.C17
